@@ -62,6 +62,64 @@ Definition pinned_reader_uses : list (string * list (string * string)) :=
                                      ("M", "ident_pattern")]);
     ("read_symbol_token", [("S", "symbol_tokens")]) ]%string.
 
+(* the language's token table as documented (README: operators, keywords, types, brackets) *)
+Definition documented_tokens : list (list Z * tag) :=
+  [
+   ([43], ("OpToken", "ADD"));
+   ([45], ("OpToken", "SUB"));
+   ([42], ("OpToken", "MUL"));
+   ([47], ("OpToken", "DIV"));
+   ([37], ("OpToken", "MOD"));
+   ([61; 61], ("OpToken", "EQ"));
+   ([33; 61], ("OpToken", "NE"));
+   ([60], ("OpToken", "LT"));
+   ([62], ("OpToken", "GT"));
+   ([60; 61], ("OpToken", "LE"));
+   ([62; 61], ("OpToken", "GE"));
+   ([111; 114], ("OpToken", "OR"));
+   ([97; 110; 100], ("OpToken", "AND"));
+   ([110; 111; 116], ("OpToken", "NOT"));
+   ([105; 115], ("OpToken", "IS"));
+   ([63; 63], ("OpToken", "SPECULATION"));
+   ([43; 61], ("IncAssignToken", "IADD"));
+   ([45; 61], ("IncAssignToken", "ISUB"));
+   ([42; 61], ("IncAssignToken", "IMUL"));
+   ([47; 61], ("IncAssignToken", "IDIV"));
+   ([37; 61], ("IncAssignToken", "IMOD"));
+   ([61], ("StmtToken", "ASSIGN"));
+   ([98; 114; 101; 97; 107], ("StmtToken", "BREAK"));
+   ([99; 111; 110; 116; 105; 110; 117; 101], ("StmtToken", "CONTINUE"));
+   ([114; 101; 116; 117; 114; 110], ("StmtToken", "RETURN"));
+   ([99; 111; 110; 115; 116], ("StmtToken", "CONST"));
+   ([59], ("SepToken", "SEMICOLON"));
+   ([44], ("SepToken", "COMMA"));
+   ([46], ("SepToken", "DOT"));
+   ([40], ("BracToken", "LPAREN"));
+   ([41], ("BracToken", "RPAREN"));
+   ([123], ("BracToken", "LCURLY"));
+   ([125], ("BracToken", "RCURLY"));
+   ([91], ("BracToken", "LSQUARE"));
+   ([93], ("BracToken", "RSQUARE"));
+   ([105; 102], ("BlockToken", "IF"));
+   ([101; 108; 115; 101], ("BlockToken", "ELSE"));
+   ([119; 104; 105; 108; 101], ("BlockToken", "WHILE"));
+   ([102; 111; 114], ("BlockToken", "FOR"));
+   ([116; 114; 121], ("BlockToken", "TRY"));
+   ([117; 110; 100; 111], ("BlockToken", "UNDO"));
+   ([115; 116; 111; 112], ("BlockToken", "STOP"));
+   ([112; 114; 101; 101; 109; 112; 116], ("BlockToken", "PREEMPT"));
+   ([105; 110; 116], ("DataType", "INT"));
+   ([98; 111; 111; 108], ("DataType", "BOOL"));
+   ([98; 121; 116; 101], ("DataType", "BYTE"));
+   ([115; 116; 114; 105; 110; 103], ("DataType", "STRING"));
+   ([101; 109; 112; 116; 121], ("DataType", "EMPTY"));
+   ([116; 114; 117; 101], ("BoolToken", "TRUE"));
+   ([102; 97; 108; 115; 101], ("BoolToken", "FALSE"))
+  ]%string.
+
+Lemma enum_tokens_documented : enum_tokens = documented_tokens.
+Proof. reflexivity. Qed.
+
 Lemma regex_texts_pinned : regex_texts = pinned_regex_texts.
 Proof. reflexivity. Qed.
 Lemma reader_order_pinned : reader_order = pinned_reader_order.
@@ -72,9 +130,11 @@ Lemma flavors_pinned : flavors = pinned_flavors.
 Proof. reflexivity. Qed.
 Lemma reader_uses_pinned : reader_uses = pinned_reader_uses.
 Proof. reflexivity. Qed.
-(* `escape_codes`, `enum_tokens` and `symbol_sort_reverse` are not pinned: the model *uses* the
-   regenerated values, and the theorems that depend on their content (C12 escapes, symbols,
-   keywords) are proved by computation on them. *)
+(* The model *uses* the regenerated `escape_codes`, `enum_tokens` and `symbol_sort_reverse` (so
+   it follows the implementation if they are edited, and the correspondence stays meaningful);
+   the theorems that depend on their content are proved by computation on them.  The documented
+   values are pinned separately: `enum_tokens_documented` above, `escape_codes_standard` and
+   `symbol_tokens_sorted` in LexerProofs.v. *)
 
 (* ---------------------------------------------------------------------------------------- *)
 (* Tokens, errors, results                                                                   *)
@@ -470,6 +530,11 @@ Definition read_escape (after_bs : list Z) : eres :=
 Definition encode_raw (c : Z) (rest : list Z) : eres :=
   if is_surrogate c then ECrash CEncodeRaw else EOk (utf8_encode c) rest.
 
+(* one element of a string / character literal that starts with `c` (not a closing quote):
+   read_escape_bytes if it is a backslash, else the raw character *)
+Definition read_item (c : Z) (r : list Z) : eres :=
+  if c =? 92 then read_escape r else encode_raw c r.
+
 (* ---------------------------------------------------------------------------------------- *)
 (* read_string_token / read_char_token                                                       *)
 (* ---------------------------------------------------------------------------------------- *)
@@ -483,7 +548,7 @@ Fixpoint str_loop (fuel : nat) (cur : list Z) (acc : list Z) : sres :=
       | c :: cur' =>
           if c =? 34 then SOk acc cur'
           else
-            match (if c =? 92 then read_escape cur' else encode_raw c cur') with
+            match read_item c cur' with
             | EOk bs r => str_loop f r (acc ++ bs)
             | EErr e r => SErr e r
             | ECrash k => SCrash k
@@ -514,7 +579,7 @@ Definition read_char (cur : list Z) : rres :=
         | c :: r =>
             if c =? 39 then RErr EExpectedCharacter r
             else
-              match (if c =? 92 then read_escape r else encode_raw c r) with
+              match read_item c r with
               | EOk bs r2 =>
                   match r2 with
                   | q2 :: r3 =>
